@@ -20,6 +20,26 @@
    batch-free program do not influence each other, so the model serialises them left to right.  *)
 From Asynq Require Export Base.
 
+(* ------------------------------------------------------------------ values *)
+(* The values of C15 programs.  Base.val (None, ints, tuples, lists, dicts) is extended here with
+   exception *instances used as data*: `return ValueError(..)`, `ConstFuture(exc)`,
+   `except Exception as e: results.append(e)`.  [VExc e] is the instance with identity e - the same
+   identity space as [Err e], so "the object was raised" ([Err e]) and "the object was returned"
+   ([Ok (VExc e)]) are different outcomes of the same instance.  Nothing in the bridge may look at
+   the *type* of a result to decide whether a member failed: a Task's state does
+   (task.result() raises iff the task failed, asynq_to_async.py:45-47), and on the asynq side
+   FutureBase.value() raises iff _error is set (futures.py:54-64, 151-153), never because of what _value is.
+   [val] and [outcome] below shadow Base.val / Base.outcome for this model and its proofs. *)
+Inductive val :=
+| VNone
+| VInt (z : Z)
+| VTuple (l : list val)
+| VList (l : list val)
+| VDict (l : list (Z * val))
+| VExc (e : exn).                 (* an exception instance as a value (never raised by being a value) *)
+
+Inductive outcome := Ok (v : val) | Err (e : exn).
+
 (* ------------------------------------------------------------------ yielded structures *)
 Inductive ystruct (A : Type) : Type :=
 | YNone                                   (* None                                        *)
